@@ -38,6 +38,15 @@ Theorem C10_event_physical : forall m0 a0 a1 tl Ms angles,
 Proof. exact event_physical. Qed.
 Print Assumptions C10_event_physical.
 
+(* ---- nested chains (ChainGenerator._restruct_pi / tree_boost): a sub-decay generated in the rest frame of an
+   intermediate particle of fixed mass m and re-boosted with rest_vector(neg(p0)) stays on shell and adds up to p0 *)
+Theorem C10_nested_reboost : forall m p3 l, 0 < m ->
+  let p0 := mk4 (sqrt (m * m + norm2_3 p3)) p3 in
+  vel_ok (boost_vector p0) -> sum4 l = V4 m 0 0 0 ->
+  sum4 (map (rest_vector (neg4 p0)) l) = p0 /\ map mass2 (map (rest_vector (neg4 p0)) l) = map mass2 l.
+Proof. exact nested_reboost. Qed.
+Print Assumptions C10_nested_reboost.
+
 (* ---- the acceptance weight is in [0,1] for every ladder the generator can produce *)
 Theorem C10_get_p_mono : forall M1 M2 a a' b, 0 <= a -> a <= a' -> 0 <= b -> a' + b <= M1 -> M1 <= M2 -> 0 < M1 ->
   get_p M1 a' b <= get_p M2 a b.
